@@ -3,22 +3,24 @@
 usage: assemble_seeds.py <results.json>   where results.json maps "<id>/<m>" -> {"caught_by": {...}, "strengthened": "...", "needs": "...", "what": "..."}"""
 import json, os, shutil, sys
 res = json.load(open(sys.argv[1]))
+srcroot = sys.argv[2] if len(sys.argv) > 2 else '/tmp/seeds'
+
 for key, r in sorted(res.items()):
     pid, m = key.split('/')
-    src = f'/tmp/seeds/{pid}/{m}'
+    src = f'{srcroot}/{pid}/{m}'
     dst = f'/verif/seeded/{pid}-{m}'
     if not os.path.exists(src + '/patch.diff'):
         print('missing', src); continue
     os.makedirs(dst, exist_ok=True)
-    for f in ['patch.diff', 'demo_test.go', 'notes.md']:
+    for f in ['patch.diff', 'patch.rebased.diff', 'demo_test.go', 'notes.md']:
         if os.path.exists(f'{src}/{f}'):
             shutil.copy(f'{src}/{f}', f'{dst}/{f}')
     confirm = open(src + '/confirm.txt').read() if os.path.exists(src + '/confirm.txt') else ''
     meta = {"property": pid, "seed": m, "breaks": r.get('what', ''), "needs_to_manifest": r.get('needs', ''),
             "independently_confirmed": confirm.strip().split('\n'),
-            "ran": [f"/tmp/seeds/confirm.sh {pid} {m}  (scratch worktree: demo passes unmodified, fails with change; build; existing tests of touched packages)",
+            "ran": [f"{srcroot}/confirm.sh {pid} {m}  (scratch worktree: demo passes unmodified, fails with change; build; existing tests of touched packages)",
                     f"/verif/seedtest.sh seeded/{pid}-{m}/patch.diff " + ' '.join(sorted(r.get('caught_by', {}).keys()))],
             "caught_by": r.get('caught_by', {}), "not_caught_by": r.get('missed_by', []),
-            "check_strengthened_because_of_this_seed": r.get('strengthened', '')}
+            "check_strengthened_because_of_this_seed": r.get('strengthened', ''), "note": r.get('note', '')}
     json.dump(meta, open(dst + '/meta.json', 'w'), indent=1)
     print('assembled', dst)
